@@ -1075,6 +1075,45 @@ fn recover(spec: &HistSpec, files: &[(String, Vec<u8>)], ctx: &mut HistCtx, stat
     r
 }
 
+/// `last` of the state denoted by all chunk files before the newest one that
+/// holds at least one complete record (decoded with the reference decoder).
+fn protocol_boundary_after_recovery(files: &[(String, Vec<u8>)]) -> Option<LogId> {
+    let mut v: Vec<(u64, &Vec<u8>)> = vec![];
+    for (n, b) in files {
+        if !n.ends_with(".wal") {
+            continue;
+        }
+        let digits: String = n.chars().filter(|c| c.is_ascii_digit()).collect();
+        if let Ok(off) = digits.parse::<u64>() {
+            v.push((off, b));
+        }
+    }
+    v.sort();
+    // drop record-less newest chunks
+    while let Some((_, b)) = v.last() {
+        if shadow::boundaries(b).len() <= 1 {
+            v.pop();
+        } else {
+            break;
+        }
+    }
+    v.pop(); // the chunk that is re-opened / followed by the new open chunk
+    let mut m = RefLog::new();
+    for (_, b) in v {
+        let mut off = 0usize;
+        while off < b.len() {
+            match crate::codecx::decode(&b[off..]) {
+                crate::codecx::Dec::Ok { rec, consumed, .. } if consumed > 0 => {
+                    m.replay(&rec);
+                    off += consumed;
+                }
+                _ => break,
+            }
+        }
+    }
+    m.st.last
+}
+
 /// F5 mechanism, computed from the image alone: some chunk file ends (in
 /// complete records) before the offset its successor starts at, i.e. the
 /// successor was created by a rotation whose old tail never reached the disk.
@@ -1285,11 +1324,15 @@ fn judge_image(
                                 jbest = j;
                             }
                         }
-                        let high = pl.records[..jbest].iter().filter_map(|(r, _, _)| if let MRec::Append(id, _) = r { Some(*id) } else { None }).max();
+                        let _ = jbest;
+                        // the boundary the recovery protocol installs: `last` after every chunk
+                        // before the newest chunk that holds a complete record (that chunk is
+                        // re-opened, or, if its tail was cut, followed by a fresh open chunk)
+                        let bp = protocol_boundary_after_recovery(img);
                         // classified by the mechanism (not by the wording of the error): the
                         // read-back after the append failed and the appended id is at or below
-                        // an id journalled earlier
-                        let key = if e.starts_with("after recovery + writes") && Some(appended) <= high {
+                        // the boundary a correct recovery installs
+                        let key = if e.starts_with("after recovery + writes") && Some(appended) <= bp {
                             "F3:read-error-on-entry-reappended-below-truncated-id"
                         } else {
                             "recovered-store-not-usable-under-cache-pressure"
